@@ -1,6 +1,8 @@
-"""Reproducer: a domain_group modifier WITHOUT a group argument modifies items whose type has no group
-(get_affector_specs looks up (fit, domain, None)), but the reverse query get_local_affectee_items does not list
-them (__get_affectee_storages skips group None), so the value is never invalidated."""
+"""Observation (outside every property's quantifier, not a finding): a domain_group modifier WITHOUT a group argument
+is rejected by the library's own validation (`DogmaModifier._valid` is False; the modifier builder never emits it).  If
+one is constructed by hand anyway, it modifies items whose type has no group (get_affector_specs looks up
+(fit, domain, None)), but the reverse query get_local_affectee_items does not list them (__get_affectee_storages skips
+group None), so the value is never invalidated."""
 import os, sys
 sys.path.insert(0, os.path.join(os.path.dirname(os.path.abspath(__file__)), '..', 'tools'))
 import common as C
@@ -14,6 +16,7 @@ ch.mkattr(attr_id=2001); ch.mkattr(attr_id=int(AttrId.skill_level))
 m = DogmaModifier(affectee_filter=ModAffecteeFilter.domain_group, affectee_domain=ModDomain.ship,
                   affectee_filter_extra_arg=None, affectee_attr_id=2001, operator=ModOperator.mod_add,
                   aggregate_mode=ModAggregateMode.stack, affector_attr_id=int(AttrId.skill_level))
+print('modifier._valid =', m._valid)
 e = ch.mkeffect(effect_id=5001, category_id=EffectCategoryId.passive, modifiers=(m,))
 ch.mktype(type_id=1, attrs={int(AttrId.skill_level): 0}, effects=(e,))          # the skill
 ch.mktype(type_id=2, group_id=None, attrs={2001: 100})                            # module type without group
